@@ -83,7 +83,7 @@ def run(ctx):
     kinds: dict = {}
 
     # ---- (1) enumeration of configurations -------------------------------------------------------
-    spells = list(range(1, 19)) if thorough else [1, 2, 3, 4, 5, 6, 7, 8, 11, 12, 13, 14, 15, 16, 17, 18]
+    spells = (list(range(1, 19)) if thorough else [1, 2, 3, 4, 5, 6, 7, 8, 11, 12, 13, 14, 15, 16, 17, 18]) + [20]
     cfg = _cfg(ctx.scratch, "PathContainMC_enum.cfg", "enum_v.cfg",
                MaxUnits=4 if thorough else 3, SpellSet=_setstr(spells))
     res = ctx.tlc(MC, cfg, tag="enum", deadlock=False, timeout=3600 if thorough else 600, heap="12g" if thorough else "8g")
@@ -242,7 +242,7 @@ def run(ctx):
     ]
     ctx.exhaustive = thorough and not divergences
     ctx.assumptions = [
-        "small scope: 7 file-system instances (<= 17 entries), 16-18 base spellings, locations of <= 3 (quick) / 4 (thorough) units",
+        "small scope: 7 file-system instances (<= 18 entries), 17-19 base spellings, locations of <= 3 (quick) / 4 (thorough) units",
         "static file system during a read (no TOCTOU race is modelled); no symbolic-link loops (fuel 8)",
         "the model's '/' has no child but the instance root R; checked at run time: none of the alphabet names exists in an "
         "ancestor directory, R is not reached through a link; realpath results above R are only required to be outside R",
